@@ -125,10 +125,12 @@ structure St where
   wire : List Frame := []          -- frames in flight towards the client
   done : List (Nat × Outcome) := []
   open_ : Bool := true
+  unregistered : List Nat := []    -- requests already on the wire whose caller has not registered its channel yet
   deriving Repr
 
 inductive Ev where
-  | issue                           -- a caller registers its channel and sends request `next+1`
+  | issue                           -- a caller registers its channel and sends request `next+1` (send only, where the insert follows the send)
+  | register (c : Nat)              -- the caller of c registers its channel (only where the insert follows the send)
   | serverAnswer (c : Nat)          -- the server answers request c (any order, any delay)
   | inject (f : Frame)              -- a scripted (dishonest) peer writes an arbitrary frame
   | deliver (i : Nat)               -- the reader takes frame i off the wire and dispatches it
@@ -158,13 +160,28 @@ def removeCall (c : Nat) (p : List Entry) : List Entry := p.filter (fun e => e.c
 def closeOutcome (e : Entry) : Nat × Outcome :=
   (e.call, match e.slot with | some b => .answer b | none => .error)
 
-def step (k : KeyKind) (s : St) : Ev → Option St
+/-- `ins`: in the issuing function the table insert precedes the statement that puts the request on the wire (regenerated
+    fact). Where it does not, issuing is two steps: the request goes out (`issue`), the channel is registered later
+    (`register`) — an answer dispatched in between finds no entry. -/
+def step (k : KeyKind) (ins : Bool) (s : St) : Ev → Option St
   | .issue =>
     if !s.open_ then none else
     let n := s.next + 1
     match keyOfReq k (.int (Int.ofNat n)) with
     | none => none
-    | some key => some { s with next := n, pending := s.pending ++ [⟨key, n, none⟩], sent := s.sent ++ [n] }
+    | some key =>
+      match ins with
+      | true => some { s with next := n, pending := s.pending ++ [⟨key, n, none⟩], sent := s.sent ++ [n] }
+      | false => some { s with next := n, sent := s.sent ++ [n], unregistered := s.unregistered ++ [n] }
+  | .register c =>
+    match ins with
+    | true => none
+    | false =>
+      if s.unregistered.contains c then
+        match keyOfReq k (.int (Int.ofNat c)) with
+        | none => none
+        | some key => some { s with pending := s.pending ++ [⟨key, c, none⟩], unregistered := s.unregistered.filter (· ≠ c) }
+      else none
   | .serverAnswer c =>
     if s.sent.contains c && !s.answered.contains c then
       some { s with wire := s.wire ++ [⟨wireOf c, c⟩], answered := s.answered ++ [c] }
@@ -198,11 +215,11 @@ def step (k : KeyKind) (s : St) : Ev → Option St
     if !s.open_ then none else
     some { s with open_ := false, pending := [], done := s.done ++ s.pending.map closeOutcome }
 
-def run (k : KeyKind) : St → List Ev → Option St
+def run (k : KeyKind) (ins : Bool) : St → List Ev → Option St
   | s, [] => some s
-  | s, e :: es => match step k s e with
+  | s, e :: es => match step k ins s e with
     | none => none
-    | some s' => run k s' es
+    | some s' => run k ins s' es
 
 /-- a client whose counter stands at `start` (`start = 0`: a fresh client). -/
 def init (start : Nat) : St := { next := start }
